@@ -143,7 +143,17 @@ def bounded(uni, tier, seed):
     base = list(common.accelerator_variants(tier))
     second = _with_second_configuration(common.accelerator_specs())
     from props import accel_family
-    for name, txt in base + second + accel_family.specs(tier):
+    # the format of A lists its ranks in another order than the mapping's rank order for A (layout discordant with traversal)
+    disc = []
+    for part, inner in ((None, "K"), ("uniform_shape(4)", "K0")):
+        y0 = accel_family.spec(part, "two-finger", "contiguous", ("coord", "payload"), ("Buf",), "lazy")
+        kr = ["K"] if part is None else ["K1", "K0"]
+        blk = lambda ranks: "  A:\n    default:\n      rank-order: [%s]\n" % ", ".join(ranks) + "".join(     # noqa: E731
+            "      %s:\n        format: C\n        cbits: 32\n        pbits: 64\n" % r for r in ranks)
+        if blk(kr + ["M"]) in y0:
+            disc.append(("matmul K:%s with A's format in rank order %s (mapping: %s)" % (part, ["M"] + kr, kr + ["M"]),
+                         y0.replace(blk(kr + ["M"]), blk(["M"] + kr))))
+    for name, txt in base + second + accel_family.specs(tier) + disc:
         try:
             text = str(common.compile_full(txt))
         except Exception:      # noqa
@@ -155,7 +165,8 @@ def bounded(uni, tier, seed):
             samples.append({"spec": name, "csv_names": len(set(re.findall(r'"([^"]*\.csv)"', text))),
                             "sections": text.count("Metrics.beginCollect(")})
         if probs:
-            cause = " cause=one-component-name-in-two-configurations" if (name, txt) in second else ""
+            cause = " cause=one-component-name-in-two-configurations" if (name, txt) in second else (
+                " cause=format-rank-order-differs-from-the-tensors-rank-order" if (name, txt) in disc else "")
             fails.append({"name": "bounded/trace-cross-reference", "detail": "%s: %s%s" % (name, probs[0], cause),
                           "witness": {"spec": name, "problems": probs[:5], "yaml": txt[:1500]}})
     return {"evaluations": ev, "distinct_nontrivial": len(distinct), "failures": fails, "samples": samples,
